@@ -217,6 +217,13 @@ Fixpoint mapM {A B} (f:A -> res B) (l:list A) : res (list B) :=
   | a :: r => do b <- f a; do bs <- mapM f r; Ok (b :: bs)
   end.
 
+(* the same with the fragments that follow handed to f (resolve_variables looks one fragment ahead) *)
+Fixpoint mapM_tl {A B} (f:A -> list A -> res B) (l:list A) : res (list B) :=
+  match l with
+  | [] => Ok []
+  | a :: r => do b <- f a r; do bs <- mapM_tl f r; Ok (b :: bs)
+  end.
+
 Definition get_new_words (w:word) (force have:bool) (rs:list fresult) : res (list word) :=
   if negb have then Ok [w]
   else if negb force then
@@ -233,7 +240,7 @@ Section Resolve.
   (* variable_words for one variable fragment of word [w]; [rec ch o] is
      substitution_source.resolve_variables() (always with diff_mode=False) *)
   Definition lookup_var (rec : ctx -> obj -> res (list word)) (diff:bool) (chain:ctx) (stop:nat)
-             (w:word) (v:str) : res (list word) :=
+             (w:word) (v:str) (dt:str) : res (list word) :=
     do src <- match chain with
               | [] => Ok None                               (* primary_parent_scope is None *)
               | _ => lexical_get (S (length v)) stop chain v true
@@ -247,18 +254,29 @@ Section Resolve.
     match vw with
     | Some ws => Ok ws
     | None =>
-        match (if diff then Some ("$" :: v) else env v) with
+        match (if diff then Some dt else env v) with
         | Some e => Ok [mkword e Q2 0]
         | None => UErr k_undefined v (wline w)
         end
     end.
 
+  (* diff_mode keeps an unresolved variable textual: "$name", or "$(name)" where the bare form would
+     read differently - a dotted name, or identifier characters following (fix of
+     C08-diff-variable-adjacent); [nx] = the fragments after this one *)
+  Definition diff_text (v:str) (nx:list fragment) : str :=
+    if existsb (Ascii.eqb ".") v
+       || match nx with
+          | FLit (c :: _) :: _ => negb (Ascii.eqb c ".") && vid_cont c
+          | _ => false
+          end
+    then "$" :: "(" :: v ++ [")"] else "$" :: v.
+
   Definition frag_result rec (diff:bool) (chain:ctx) (stop:nat) (w:word) (force:bool) (f:fragment)
-    : res fresult :=
+             (nx:list fragment) : res fresult :=
     match f with
     | FLit v => Ok (RWord (mkword v Q2 0))
     | FVar v =>
-        do vws <- lookup_var rec diff chain stop w v;
+        do vws <- lookup_var rec diff chain stop w v (diff_text v nx);
         if negb force then Ok (RWords vws)
         else Ok (RWord (mkword (vjoin_sp (map wv vws)) Q2 0))
     end.
@@ -267,7 +285,7 @@ Section Resolve.
     if quote_eqb (wq w) Q1 then Ok [w]
     else
       do (force, have, frs) <- fragments_of_word w;
-      do rs <- mapM (frag_result rec diff chain stop w force) frs;
+      do rs <- mapM_tl (frag_result rec diff chain stop w force) frs;
       get_new_words w force have rs.
 
   Fixpoint resolve_words rec (diff:bool) (chain:ctx) (stop:nat) (ws:list word) : res (list word) :=
